@@ -54,8 +54,11 @@ def run(tier, opts):
                 continue
             c = r["case"]
             ck.violation(f"replay:{b}:" + json.dumps([c["steps"], c["loglast"], c["kind"], c["queries"], c["corrupt"]]), f"[{b}] honest FRI instance: " + r["why"], r)
-        common.validate_trace(ck, "Trace_Fri", trace, f"[{b}] fri_verify on honest instances", f"trace:{b}",
-                              keyfn=lambda case, bad: f"trace:{b}:{bad.get('ev')}")
+        ok = common.validate_trace(ck, "Trace_Fri", trace, f"[{b}] fri_verify on honest instances", f"trace:{b}",
+                                   keyfn=lambda case, bad: f"trace:{b}:{bad.get('ev')}")
+        if ok and (opts.get("selftest") or tier == "thorough") and b == vf.DEFAULT_BUILD:
+            common.selftest_trace(ck, "Trace_Fri", trace, [("fri.fold", "out"), ("fri.fold", "next_x_inv"), ("fri.gather", "x_inv"), ("fri.gather", "elems"), ("fri.first", "x_inv"), ("fri.begin", "group"),
+                                                           ("fri.last", "eval"), ("fri.layer", "eval_point"), ("fri.result", "ok"), ("fri.fold", None), ("tc.begin", None)])
         # beyond the model's bounds
         outr = os.path.join(tmp, f"rand-{b}.ndjson")
         tracer = os.path.join(tmp, f"randtrace-{b}.ndjson")
